@@ -201,8 +201,8 @@ def collision_sequences():
         (c(len=4, allow=15, require=1), c(len=4, allow=15, exclude=16)),       # 16<<4 == 1<<8
         (c(len=5, allow=4, require=1), c(len=5, allow=4, exclude=16)),
         # the same "shape" (length, number of merely-allowed characters, sizes of the required sets) with another overlap pattern
-        (c(len=3, allowChars=o("xyz"), requireSets=[o("ab"), o("cd")]), c(len=3, allowChars=o("xyz"), requireSets=[o("ab"), o("bc")])),
-        (c(len=3, allowChars=o("x"), requireSets=[o("ab"), o("cd"), o("ef")]), c(len=3, allowChars=o("x"), requireSets=[o("ab"), o("bc"), o("ca")])),
+        (c(len=2, allowChars=o("xyz"), requireSets=[o("ab"), o("cd")]), c(len=2, allowChars=o("xyz"), requireSets=[o("ab"), o("bc")])),
+        (c(len=4, allowChars=o("x"), requireSets=[o("ab"), o("cd"), o("ef")]), c(len=4, allowChars=o("x"), requireSets=[o("ab"), o("bc"), o("ca")])),
         (c(len=2, allowChars=o("xy"), requireSets=[o("abc"), o("de")]), c(len=2, allowChars=o("xy"), requireSets=[o("abc"), o("cd")])),
         (c(len=700, allow=3, requireSets=[o("q")], allowChars=o("0123456789!@")), c(len=700, allow=3, requireSets=[o("z")], allowChars=o("0123456789.-"))),  # same |alphabet| and length
     ]
